@@ -368,7 +368,7 @@ package table
 // (for restartIndex the recorded offsets are taken to increase with the restart point, as the writer emits them; a
 // block that passed its checksum is such a block)
 //@ func (*block).restartIndex
-//@   props C13 C02
+//@   props C13 C02 C18
 //@   safety off
 //@   requires [restart-offsets-increase] forall i, j int :: (0 <= i && i < j && j < rlimit - rstart) ==> le32(b.data, b.restartsOffset + 4*(rstart+i)) < le32(b.data, b.restartsOffset + 4*(rstart+j))
 //@   requires 0 <= rstart && rstart <= rlimit && rlimit <= b.restartsLen && 0 <= b.restartsOffset && b.restartsOffset + 4*b.restartsLen <= len(b.data) && len(b.data) <= 1099511627776
@@ -413,6 +413,24 @@ package table
 //@   ensures [C02,C13,C18:a-released-iterator-reports-that-it-was-released] (old(i.err) == nil && old(i.dir) == dirReleased) ==> (!result && i.err == ErrIterReleased)
 //@   at before call (*blockIter).Prev#1
 //@     assert [C02,C13:last-walks-back-from-behind-the-last-entry] i.dir == dirEOI
+// C02 / C13: a step backward. It leaves the iterator facing backward (or before the first entry); an entry taken
+// from the cache of the current restart range comes with its own value bytes and leaves the offset right behind them
+// (a later turn forward continues from there); a walk that rebuilds the cache stops exactly at the offset it set out
+// for; stepping back from behind the last entry starts at the limit of the iterator's range.
+//@ func (*blockIter).Prev
+//@   props C13 C02 C18
+//@   safety off
+//@   assumepre
+//@   requires [C02,C13:the-direction-is-one-of-the-five] dirReleased <= i.dir && i.dir <= dirForward
+//@   ensures [C02,C13,C18:a-released-iterator-reports-that-it-was-released] (old(i.err) == nil && old(i.dir) == dirReleased) ==> (!result && i.err == ErrIterReleased)
+//@   ensures [C02,C13:a-step-backward-leaves-the-iterator-facing-backward] result ==> (i.dir == dirBackward && i.err == nil)
+//@   ensures [C02,C13:no-entry-and-no-error-is-the-start] (!result && i.err == nil) ==> i.dir == dirSOI
+//@   at before stmt return true#1
+//@     assert [C02,C13:a-cached-entry-comes-with-its-own-value-and-the-offset-behind-it] i.offset == node[1] + node[2] && sameslice(i.value, i.block.data[node[1] : node[1] + node[2]])
+//@   at after stmt i.offset = i.offsetLimit
+//@     assert [C02,C13:stepping-back-from-the-end-starts-at-the-limit-of-the-range] i.restartIndex == i.riLimit && i.offset == i.offsetLimit
+//@   at before stmt i.restartIndex = ri
+//@     assert [C02,C13:the-rebuilt-walk-stops-exactly-at-its-target] offset == i.offset
 //@ func (*blockIter).reset
 //@   props C13 C02
 //@   safety off
